@@ -189,7 +189,10 @@ def dim_is(a, v):
     z = z3.simplify(a.z)
     if z3.is_int_value(z):
         return z.as_long() == v
-    return bool(a == v)
+    r = bool(a == v)
+    if v == 1:
+        ctx._vc_seen[('dim1', z.get_id())] = (z, r)     # decided on this path (kept alive with the AST)
+    return r
 
 
 def cdim(d):
@@ -259,8 +262,8 @@ def _known_one(d):
     z = z3.simplify(d.z)
     if z3.is_int_value(z):
         return z.as_long() == 1
-    # entailed by path condition?
-    return not ctx.feasible(d.z != 1)
+    hit = ctx._vc_seen.get(('dim1', z.get_id()))
+    return bool(hit and hit[1])
 
 
 def elem_binop(op, a, b):
@@ -469,11 +472,34 @@ class SArr:
         raise Unsupported('len() of array with symbolic leading dimension at %s' % _site())
 
     def at(self, *idx):
-        """element at integer index tuple (no bounds wrap)"""
+        """element at integer index tuple (no bounds wrap); memoised per (array state, index terms)"""
         if self._base is not None:
             base, imap = self._base
             return base.at(*imap(idx))
-        return self._fn(tuple(idx))
+        fn = self._fn
+        memo = self.__dict__.get('_memo')
+        if memo is None or memo[0] is not fn or memo[2] != ctx.path_id:
+            memo = (fn, {}, ctx.path_id)
+            self._memo = memo
+        keep = []
+        key = []
+        for i in idx:
+            if isinstance(i, int):
+                key.append(i)
+            elif isinstance(i, Sc):
+                sz = z3.simplify(i.z)
+                keep.append(sz)          # keep the AST alive: z3 ids are only unique among live terms
+                key.append(('z', sz.get_id()))
+            else:
+                keep.append(i)
+                key.append(('o', id(i)))
+        key = tuple(key)
+        hit = memo[1].get(key)
+        if hit is not None:
+            return hit[1]
+        v = fn(tuple(idx))
+        memo[1][key] = (keep, v)
+        return v
 
     def __repr__(self):
         return '<SArr %s %s %s>' % (self.name or '', self.shape, self.dtype)
@@ -650,8 +676,11 @@ class SArr:
     def _snapshot(self):
         """closure returning the current element at an index (for functional update)"""
         if self._base is None:
-            f = self._fn
-            return lambda idx, f=f: f(tuple(idx))
+            frozen = SArr(self.shape, self._fn, self.dtype)
+            memo = self.__dict__.get('_memo')
+            if memo is not None and memo[0] is self._fn:
+                frozen._memo = memo
+            return lambda idx, frozen=frozen: frozen.at(*idx)
         base, imap = self._base
         bs = base._snapshot()
         return lambda idx, bs=bs, imap=imap: bs(imap(tuple(idx)))
@@ -688,7 +717,8 @@ class SArr:
             n = self.shape[ax]
             if isinstance(k, slice):
                 start, step, length = slice_indices(k, n)
-                plan.append(('slice', start, step, length, oa))
+                full = (k.start is None and k.stop is None and (k.step is None or k.step == 1))
+                plan.append(('slice', start, step, length, oa, full))
                 oa += 1
             else:
                 v = k
@@ -709,8 +739,10 @@ class SArr:
                     c = (lift(i) == p[1])
                     conds.append(c)
                 else:
-                    _, start, step, length, oa = p
-                    if isinstance(step, int) and step == 1:
+                    _, start, step, length, oa, full = p
+                    if full:
+                        o = i
+                    elif isinstance(step, int) and step == 1:
                         o = i - start
                         conds.append(sc.And(lift(o) >= 0, lift(o) < length))
                     elif isinstance(step, int) and step > 0:
@@ -1060,6 +1092,10 @@ def slice_indices(s, n):
     if hasattr(stop, 'dtype') and not isinstance(stop, Sc):
         stop = int(stop)
     nn = lift(n)
+    if start is None and stop is None and step == 1:
+        return 0, 1, n
+    if start is None and stop is None and step == -1:
+        return _c(nn - 1), -1, n
     if step > 0:
         if start is None:
             st = 0
